@@ -21,6 +21,7 @@ package hessian
 import (
 	"bytes"
 	"io"
+	"math"
 	"reflect"
 	"unsafe"
 )
@@ -125,7 +126,11 @@ func (e *Encoder) WriteData(data interface{}) (int, error) {
 		value := data.(int32)
 		return e.writeInt(value)
 	case reflect.Int: // as int
-		value := int32(data.(int))
+		i := data.(int)
+		if i < math.MinInt32 || i > math.MaxInt32 {
+			return 0, newCodecError("WriteData", "int %d overflows the 32-bit int it is written as, use int64", i)
+		}
+		value := int32(i)
 		return e.writeInt(value)
 	case reflect.Uint8: // as int
 		value := int32(data.(uint8))
